@@ -220,6 +220,13 @@ def _mirsym():
     add("C16.a/double_delta_encode", "C16", "mirsym", Q, "double_delta_encode::<i8|i16|i32> emits the exact second differences whenever they fit T; no panic",
         ["locustdb_serialization::api::double_delta_encode"], bounds="sequences of 2..3 (quick) / 2..5 (thorough) i64 with second differences in T's range", spec=sa.DoubleDeltaEncodeSpec())
 
+    from .specs import routing as sr
+    add("C15.a/subpartition_key", "C15", "mirsym", Q,
+        "PartitionMetadata::subpartition_key routes every column name to the first sub-partition whose last column is >= the name (the file that holds it when sub-partitions are contiguous runs of the sorted names) and to None beyond the last one",
+        ["disk_store::meta_store::PartitionMetadata::subpartition_key"],
+        bounds="1-3 sub-partitions from 4 (quick) / 8 (thorough) fixed sets of last-column names; looked-up names of 1-2 (quick) / 0-3 (thorough) symbolic bytes; BTreeMap modelled as a sorted association list",
+        spec=sr.SubpartitionKeySpec(), stubs=["BTreeMap::{lower_bound,Cursor::peek_next} -> sorted association list"])
+
 
 _mirsym()
 
